@@ -1,5 +1,6 @@
 import McpModel.Base.Proto
 import McpModel.Preflight.Monitor
+import McpModel.Preflight.Seq
 /-!
 Driver for E8 Preflight (C12): the STRING LAYER.  Replays every harness record on the model (`Preflight.verdict` and the
 helper functions), parses the IMPLEMENTATION's observation into the typed observation of `Monitor.lean`, runs the typed
@@ -11,7 +12,10 @@ C12 monitor of the record's kind on it and renders the clause it reports:
                           request violating nothing is not refused (F6 has its own clause);
 * `client_server_agree` — what the SDK client generates for valid arguments is accepted, and the handler sees the
                           arguments that were sent;
-* `decode_encode_header_value`, `primitiveEqual_refl_on_safe_ints`, `accepts_table` on the helper records.
+* `decode_encode_header_value`, `primitiveEqual_refl_on_safe_ints`, `accepts_table` on the helper records;
+* `client_server_agree` over time — records of kind `seq` (one client session: tools/list pages cached with their
+  `ttlMs`, time passing, list_changed, tools re-registered, paginated listings): the only STATEFUL kind; the engine
+  state is the model's `World` and the monitor's `SeqMon` (`Seq.lean`), reset by `seq cfg`.
 
 What decides whether and which clause is violated is in `Monitor.lean` (bridged to the model by `Bridge.lean`, to the
 property by `Sound.lean`).  Here: the token parser, the renderers of the model's observation (the equality test
@@ -449,6 +453,14 @@ def clauseText (r : Option (Req × List MsgIn)) : Clause → String
   | .e2eF6 => "C12: F6 empty-string argument: the SDK server refuses the SDK client's call (-32020 missing header)"
   | .e2eAgree => "C12: client_server_agree: the SDK server refuses or alters a call the SDK client generated for valid arguments"
   | .e2eReached => "C12: refused call reached the tool handler"
+  | .seqStaleLook => "C12: preflight-F32 superseded tools/list page: lookupTool answers with a definition the client received earlier although the client has since listed the tool under its current definition (cached pages are consulted in map order, not most recent first)"
+  | .seqLostLook => "C12: client_server_agree over time: lookupTool no longer finds (or alters) the definition of a tool the client has listed under its current definition since the server's tools last changed"
+  | .seqStaleCall => "C12: preflight-F32 superseded tools/list page: the SDK server refuses a call the SDK client generated for valid arguments — the Mcp-Param headers mirror a definition of the tool the client received earlier, although it has since listed the tool under its current definition"
+  | .seqLostCall => "C12: client_server_agree over time: the SDK server refuses or alters a call the SDK client generated for valid arguments — the client sent no Mcp-Param header although it has listed the tool under its current definition since the server's tools last changed"
+  | .seqRefusedExact => "C12: client_server_agree over time: the SDK server refuses or alters a call of the SDK client that carries exactly the Mcp-Param headers the tool's CURRENT definition demands (the definition the server has registered and lists; valid arguments) — the server validates the mirror against something else, e.g. the annotations of an earlier registration of the tool"
+  | .seqAgree => "C12: client_server_agree over time: the SDK server refuses or alters a call the SDK client generated for valid arguments (tool listed under its current definition since the server's tools last changed)"
+  | .unsupportedVersion st code handled => s!"C06+C12: unsupported-version answer: a request whose Mcp-Protocol-Version header and _meta agree on a version this SDK does not implement ({match r with | some (r, _) => bHex r.version | none => "?"}, not older than 2026-07-28) and that meets every other documented precondition was answered {st}/{optInt code}{if handled == 0 then "" else " after a handler ran"} instead of HTTP 400 with JSON-RPC -32022 listing the supported versions (or -32602)"
+  | .seqLegacy => "C12: client_server_agree over time: a call on a legacy-protocol session (no Mcp-* mirror applies) is refused or altered"
   | .reached st => s!"C12: refused request (status {st}) reached a middleware/handler"
   | .dispatchSound p => s!"C12: dispatch_sound: dispatched although: {match r with | some (r, ins) => precondText r ins p | none => reprStr p}"
   | .httpF6 => "C12: F6 empty-string argument: the server refuses (-32020) the empty Mcp-Param header the SDK client sends"
@@ -581,9 +593,9 @@ def stepOp (toks : List String) (impl : String) : Verdict :=
       let o := verdict std64 req
       let obs := parseHttpObs impl
       let viol := match obs with
-        | some ob => (httpMonitorAll std64 req ins ob).map (clauseText (some (req, ins)))
+        | some ob => (httpMonitorAllV std64 req ins ob).map (clauseText (some (req, ins)))
         | none => some s!"C12: the handler did not answer ({impl})"
-      let model := modelObs req o (obs.getD blankObs)
+      let model := modelObsV req o (obs.getD blankObs)
       -- self-check of the string layer: the model's observation survives rendering and parsing
       let viol := if parseHttpObs (showHttpObs model) == some model then viol
         else viol.orElse (fun _ => some "LIBDISC render/parse: the model's observation does not survive the string layer")
@@ -591,13 +603,123 @@ def stepOp (toks : List String) (impl : String) : Verdict :=
     | none => bad
   | _ => bad
 
-def engine : Engine Unit where
-  init := ()
-  step _ toks impl :=
+/-! ### `seq` records: one session over time (state: the model's world and the monitor's knowledge) -/
+
+partial def showProps : Props → String
+  | p => "p{ " ++ go p ++ "}"
+where
+  go : Props → String
+    | .nil => ""
+    | .cons name ty xh ch rest =>
+      let x := match xh with
+        | .absent => "x-" | .null => "xz" | .other => "xo" | .str s => "xs" ++ bHex s
+      "k" ++ bHex name ++ " y" ++ bHex ty ++ " " ++ x ++ " " ++ showProps ch ++ " " ++ go rest
+
+def showTools (ts : Tools) : String :=
+  "T{ " ++ String.join (ts.map (fun t => "t" ++ bHex t.1 ++ " " ++ showProps t.2 ++ " ")) ++ "}"
+
+def showCursor (k : Bytes) : String := if k = [] then "c-" else "c" ++ bHex k
+
+def parseCursor (tok : String) : Option Bytes :=
+  if tok == "c-" then some [] else if tok.startsWith "c" then hexB (tail1 tok) else none
+
+def showCallOut : CallOut → String
+  | .okSame => "ok same"
+  | .okOther => "ok differs"
+  | .notOk (some code) q => s!"rej {code} handler={if q then 0 else 1}"
+  | .notOk none q => s!"err handler={if q then 0 else 1}"
+
+def showSeqObs : SeqObs → String
+  | .ok => "ok"
+  | .listed hit tools next => s!"hit{if hit then 1 else 0} {showTools tools} {showCursor next}"
+  | .looked defs => "L{ " ++ String.join (defs.map (fun d => (match d with | some p => showProps p | none => "-") ++ " ")) ++ "}"
+  | .called hdrs out => showHdrs hdrs ++ " " ++ showCallOut out
+
+partial def parseLooked : List String → List (Option Props) → Option (List (Option Props))
+  | ["}"], acc => some acc.reverse
+  | "-" :: r, acc => parseLooked r (none :: acc)
+  | toks, acc =>
+    match parseProps toks with
+    | some (p, r) => parseLooked r (some p :: acc)
+    | none => none
+
+/-- The implementation's observation of a `seq` record, typed (`none`: unreadable). -/
+def parseSeqObs (op : SeqOp) (impl : String) : Option SeqObs :=
+  match op, words impl with
+  | .list _, h :: "T{" :: r =>
+    (match parseTools r [] with
+     | some (tools, [nx]) =>
+       (match parseCursor nx with
+        | some k => if h == "hit1" then some (.listed true tools k) else if h == "hit0" then some (.listed false tools k) else none
+        | none => none)
+     | _ => none)
+  | .look _, "L{" :: r => (parseLooked r []).map SeqObs.looked
+  | .call _ _, toks =>
+    (match parseHdrs toks with
+     | some (h, ["ok", "same"]) => some (.called h .okSame)
+     | some (h, "ok" :: _) => some (.called h .okOther)
+     | some (h, ["rej", code, hd]) => code.toInt?.map (fun cd => .called h (.notOk (some cd) (hd == "handler=0")))
+     | some (h, [e, hd]) => if e.startsWith "err" then some (.called h (.notOk none (hd == "handler=0"))) else none
+     | _ => none)
+  | .list _, _ => none
+  | .look _, _ => none
+  | _, ["ok"] => some .ok
+  | _, _ => none
+
+def parseSeqOp : List String → Option SeqOp
+  | "set" :: t :: r =>
+    (match hexB (tail1 t), parseProps r with
+     | some n, some (p, []) => if t.startsWith "t" then some (.setTool n p) else none
+     | _, _ => none)
+  | ["del", t] => if t.startsWith "t" then (hexB (tail1 t)).map SeqOp.delTool else none
+  | ["ttl", v] => v.toInt?.map SeqOp.ttl
+  | ["adv", _] => some .adv
+  | ["notified"] => some .notified
+  | ["list", k] => (parseCursor k).map SeqOp.list
+  | ["look", t] => if t.startsWith "t" then (hexB (tail1 t)).map SeqOp.look else none
+  | "call" :: t :: r =>
+    (match hexB (tail1 t), parseArgs r with
+     | some n, some (a, []) => if t.startsWith "t" then some (.call n a) else none
+     | _, _ => none)
+  | _ => none
+
+structure DrvState where
+  seq : Option (World × SeqMon) := none
+
+def stepSeq (st : DrvState) (toks : List String) (impl : String) : DrvState × Verdict :=
+  match toks with
+  | "cfg" :: k :: pv :: ps :: _ =>   -- a fifth token `sub<0|1>` (does the client subscribe to list_changed) is the harness's
+    (match (tailN 2 ps).toNat? with
+     | some size =>
+       let cfg : SeqCfg := { newProto := k == "Ksl" && pv == "pvnew", pageSize := size }
+       ({ seq := some (World.init cfg, SeqMon.init cfg) }, { model := "ok" })
+     | none => (st, bad))
+  | [_, "connect"] =>
+    -- the client connects: which protocol the session runs (string layer: the model's state is that of `cfg`)
+    (match st.seq with
+     | some (w, _) => (st, { model := if w.newProto then "new1" else "new0" })
+     | none => (st, bad))
+  | t :: r =>
+    (match st.seq, (tail1 t).toNat?, parseSeqOp r with
+     | some (w, m), some now, some op =>
+       let (w', o) := stepW std64 w now op
+       (match parseSeqObs op impl with
+        | some io =>
+          let (m', cl) := seqMonStep std64 m op io
+          ({ seq := some (w', m') }, { model := showSeqObs o, violated := say cl })
+        | none =>
+          ({ seq := some (w', m) }, { model := showSeqObs o, violated := some s!"C12: client_server_agree over time: unreadable observation ({impl})" }))
+     | _, _, _ => (st, bad))
+  | _ => (st, bad)
+
+def engine : Engine DrvState where
+  init := {}
+  step st toks impl :=
     let toks := toks.filter (fun t => !t.startsWith "@")
     match toks with
-    | ["reset"] => ((), { model := "ok" })
-    | _ => ((), stepOp toks impl)
+    | ["reset"] => (st, { model := "ok" })
+    | "seq" :: r => stepSeq st r impl
+    | _ => (st, stepOp toks impl)
 
 end Preflight
 
